@@ -202,7 +202,7 @@ func lintBatch(script string) (res batchLint) {
 		if strings.HasPrefix(strings.ToLower(t), "rem") {
 			continue
 		}
-		for _, m := range reGoto.FindAllStringSubmatch(l, -1) {
+		for _, m := range reGoto.FindAllStringSubmatch(batCommandPart(l), -1) {
 			res.Gotos++
 			target := strings.ToLower(m[1])
 			if target == "eof" {
@@ -242,7 +242,7 @@ func lintBatch(script string) (res batchLint) {
 				}
 			}
 		}
-		for _, m := range reCall.FindAllStringSubmatch(l, -1) {
+		for _, m := range reCall.FindAllStringSubmatch(batCommandPart(l), -1) {
 			res.Calls++
 			target := strings.ToLower(m[1])
 			if defined[target] == 0 {
@@ -450,6 +450,47 @@ func c16Workload(c *Check) []c16Prog {
 			}
 		}
 	}
+	// literal contents made of characters that are special to the shells, in every statement form that takes a
+	// string literal, at top level and inside a parenthesised block (the four characters of the recorded
+	// C08 finding, double quote, dollar, backquote and backslash, are left out)
+	{
+		contents := []string{"it's", "don't stop", "'", "''", "a 'b' c", "(", ")", "()", ") else (", "a) b (c", "{", "}", "[", "]", "a;b", "a&b", "a&&b", "a|b", "a||b", "a<b", "a>b", ">>x", "#x", "a #b", "*", "?", "~", "!", "!x!", "%", "%x%", "%%", "^", "^^", "a^b", "=", "a=b", ",", "@", "-n", "/?", "::", "rem", "fi", "done", "esac", "   ", "", "é", "a\tb", "x:y", ":label", "goto :eof", "on", "off", "echo", "nul"}
+		forms := map[string]string{
+			"print":        "print($L)",
+			"print-two":    "print($L, $L)",
+			"input-prompt": "v := input($L)",
+			"write-data":   "write(\"f.txt\", $L)",
+			"write-path":   "write($L, \"d\")",
+			"read-path":    "v := read($L)",
+			"exists-path":  "v := exists($L)",
+			"panic":        "if x == 2 {\n\tpanic($L)\n}",
+			"define":       "v := $L",
+			"concat":       "v := $L + $L",
+			"compare":      "v := $L == $L",
+			"slice":        "v := []string{$L, $L}",
+			"slice-store":  "v := []string{}\nv[1] = $L",
+			"app-arg":      "@mytool($L)",
+			"app-capture":  "o, e, st := @mytool($L) | @mytool($L)",
+			"call-arg":     "show($L)",
+			"return":       "func r() string {\n\treturn $L\n}\nv := r()",
+			"switch-case":  "t := \"k\"\nswitch t {\ncase $L:\n\tprint(1)\n}",
+			"len":          "v := len($L)",
+			"range":        "for i, ch := range $L {\n\tprint(i, ch)\n}",
+		}
+		pre := "x := 1\nfunc show(p string) {\n\tprint(p)\n}\n"
+		for ci, ct := range contents {
+			lit := quoteTsh(strings.ReplaceAll(ct, "\\t", "\t"), false)
+			for _, fk := range sortedKeys(forms) {
+				body := strings.ReplaceAll(forms[fk], "$L", lit)
+				if (ci+len(fk))%3 == 0 || fk == "print" || fk == "input-prompt" || fk == "panic" {
+					out = append(out, c16Prog{key: fmt.Sprintf("literal-content/%d/%s/top", ci, fk), src: map[string]string{"main.tsh": pre + body + "\n"}})
+				}
+				if ((ci+len(fk))%3 == 1 || fk == "print" || fk == "input-prompt") && fk != "return" {
+					out = append(out, c16Prog{key: fmt.Sprintf("literal-content/%d/%s/block", ci, fk), src: map[string]string{"main.tsh": pre + "for i0 := 0; i0 < 1; i0++ {\n\tif x == 1 {\n\t\t" + strings.ReplaceAll(body, "\n", "\n\t\t") + "\n\t} else {\n\t\tprint(2)\n\t}\n}\n"}})
+				}
+			}
+		}
+	}
 	// empty blocks everywhere
 	empties := []string{
 		"func f() {\n}\nf()\n", "if true {\n}\n", "if true {\n} else {\n}\n", "if true {\n} else if false {\n} else {\n}\n", "for {\n\tbreak\n}\n", "for i := 0; i < 2; i++ {\n}\n",
@@ -600,6 +641,12 @@ func checkC16(c *Check) {
 			}
 		}
 		for _, p := range lint.Problems {
+			if strings.HasPrefix(p, "block structure (parser):") {
+				// the linter's parser met a line outside its model (e.g. data with & | < > in an unquoted
+				// argument): no verdict on the block structure of this script
+				c.Inconclusive("batch linter: line outside the parser's model")
+				continue
+			}
 			if !jumpRuleApplies && (strings.Contains(p, "innermost open loop") || strings.Contains(p, "outside the if construct")) {
 				continue
 			}
@@ -638,4 +685,23 @@ func checkC16(c *Check) {
 			c.Sample(map[string]interface{}{"key": pg.key, "source": clip(srcs["main.tsh"], 800), "batch_labels": lint.Labels, "batch_gotos": lint.Gotos, "loop_regions": lint.Loops, "if_regions": lint.Ifs})
 		}
 	})
+}
+
+var reQuoted = regexp.MustCompile(`"[^"]*"`)
+
+// batCommandPart removes the data of a Batch line before jumps and calls are looked for: quoted
+// words, the arguments of a call (only "call :label" itself is a jump) and the text of an echo.
+func batCommandPart(l string) string {
+	t := reQuoted.ReplaceAllString(l, `""`)
+	lt := strings.ToLower(strings.TrimSpace(t))
+	if strings.HasPrefix(lt, "call :") {
+		f := strings.Fields(strings.TrimSpace(t))
+		if len(f) >= 2 {
+			return f[0] + " " + f[1]
+		}
+	}
+	if strings.HasPrefix(lt, "echo") || strings.HasPrefix(lt, "rem ") || strings.HasPrefix(lt, "::") {
+		return ""
+	}
+	return t
 }
